@@ -162,9 +162,8 @@ func (f *FifoMapCache[K, V]) Values() []V {
 }
 
 func (f *FifoMapCache[K, V]) Resize(capacity int) {
-	f.config.numPartitionCalculator(capacity)
-	numPartitions, partitionLength := calcBalancedPartitions(capacity)
-	if numPartitions != f.maxPartitions {
+	numPartitions, partitionLength := f.config.numPartitionCalculator(capacity)
+	if numPartitions != f.maxPartitions || partitionLength != f.partitionCapacity {
 		f.currentPartitionMux.Lock()
 		f.maxPartitions = numPartitions
 		f.partitionCapacity = partitionLength
